@@ -431,6 +431,7 @@ type Res struct {
 	RecKeys  []string `json:"rk"`
 	Keys     []string `json:"keys"`
 	Routing  []string `json:"routing"`
+	Digest   string   `json:"digest"` // of everything else the document says (service type, priority, accept, relationships)
 }
 
 func (r Res) String() string {
@@ -438,7 +439,7 @@ func (r Res) String() string {
 		return "unresolved"
 	}
 
-	return r.Endpoint + "|" + strings.Join(r.RecKeys, ",") + "|" + strings.Join(r.Keys, ",") + "|" + strings.Join(r.Routing, ",")
+	return r.Endpoint + "|" + strings.Join(r.RecKeys, ",") + "|" + strings.Join(r.Keys, ",") + "|" + strings.Join(r.Routing, ",") + "|" + r.Digest
 }
 
 // Resolve resolves a DID through the agent's VDR registry.
@@ -448,7 +449,7 @@ func (a *Agent) Resolve(id string) Res {
 		return Res{}
 	}
 
-	return docRes(dr.DIDDocument)
+	return fullRes(dr.DIDDocument)
 }
 
 func docRes(doc *did.Doc) Res {
